@@ -15,7 +15,7 @@ import (
 func init() {
 	register("C02", PropCheck{
 		Title:      "Paginated sink content is complete, ordered and navigable",
-		Explain:    "Structural necessary conditions of the pagination, decided on every path (the value-level partition relation itself is not decided, see not-decided): (R1) a page index at or past the end is an error, never a crash or other content: every index/slice in the methods of Sizer and Menu is proved in bounds, the cursor lookup's 'index beyond the cursors' edge only leads to error returns, the menu reports *BrowseError for idx >= pageCount and Vm.Render answers it by moving to the catch node (shared with C08 R3); (R2) lateral entries: Menu.Put keeps every entry it accepts (every success return passes the append); in the method that puts the browse selectors the 'next' entry is put only behind its availability flag, no path reaches the put on which the index may be the last page (idx against pageCount-1 in any equivalent form, tracked through repeated tests of the same value and through && / || lowered to phis) unless the flag was cleared on it and not raised again, the flag is cleared only on the last-page edge and nowhere else in the package, and it is raised before the test whenever the application configured the entry; the same for 'previous' against idx==0; (R3) row grouping as a typestate automaton over the grouping loop (abstract interpretation of the function that ranges over the rows and adds cursors, with its closures and builder helpers inlined; state: rows in the page under construction, page buffer empty/non-empty/unknown, separator pending, page emitted, cursor pending, row pending, page counter minus pages emitted): a separator is written between any two consecutive rows of a page and none before the first - for EVERY row content including the empty row; a page that holds rows is emitted before its buffer is reset and before a success return; the returned page count equals the number of pages emitted; every page separator written to the result is followed by exactly one cursor whose value is the result length after that separator; every row read is appended to a page exactly once (none skipped, none duplicated) and unmodified (the appended string is the row element itself, not a slice or derivative); (R4) plumbing: cursor 0 is added before the grouping runs, the menu's page count is the grouping's count itself (no arithmetic in between) and the sink value is the grouped string, the cursor (a byte length) slices the sink string itself (not a rune slice), the lookup cuts the page at the first page separator on the complete 'found' edge of the search (offset 0 included), page and in-page separators agree between the grouping and the lookup, and Vm.Render renders the page index that State.Where reports R4 also requires that the engine creates a Sizer only behind OutputSize > 0 (with a Sizer and no limit the sink is paginated against the length of the static text) and that Page.Reset resets its sizer on every path on which it has one (added after seeded changes C02-G and C02-H). R4 further requires that the BrowseError branch of Vm.Render builds nothing but MOVE _catch (a page index past the end is answered by the catch node, never by a lateral move back) and that package render contains no unchecked lossy narrowing (a 16-bit page cursor wraps at 64 kB of sink content); added after seeded changes C02-I and C02-J. R4 also requires that State.Down and State.Up store SizeIdx = 0 on every success path - a node entered by a descent or ascent opens on its first page (added after seeded change C02-L). (R5) = the load-once clause of C05 R1 under its pagination reading: a lateral move re-executes the node's bytecode, so the external-code invoker is reached only on the miss edge of Memory.Get(decoded symbol) (added after seeded change C02-N, which re-ran the loader on every page flip with the browse selector as input). (R6) = C07 R2: the renderer's request-state fields are re-initialised on every path through the resume block, so nothing measured for one render (a memo of browse-entry sizes) is used for the next (added after seeded change C02-M).",
+		Explain:    "Structural necessary conditions of the pagination, decided on every path (the value-level partition relation itself is not decided, see not-decided): (R1) a page index at or past the end is an error, never a crash or other content: every index/slice in the methods of Sizer and Menu is proved in bounds, the cursor lookup's 'index beyond the cursors' edge only leads to error returns, the menu reports *BrowseError for idx >= pageCount and Vm.Render answers it by moving to the catch node (shared with C08 R3); (R2) lateral entries: Menu.Put keeps every entry it accepts (every success return passes the append); in the method that puts the browse selectors the 'next' entry is put only behind its availability flag, no path reaches the put on which the index may be the last page (idx against pageCount-1 in any equivalent form, tracked through repeated tests of the same value and through && / || lowered to phis) unless the flag was cleared on it and not raised again, the flag is cleared only on the last-page edge and nowhere else in the package, and it is raised before the test whenever the application configured the entry; the same for 'previous' against idx==0; (R3) row grouping as a typestate automaton over the grouping loop (abstract interpretation of the function that ranges over the rows and adds cursors, with its closures and builder helpers inlined; state: rows in the page under construction, page buffer empty/non-empty/unknown, separator pending, page emitted, cursor pending, row pending, page counter minus pages emitted): a separator is written between any two consecutive rows of a page and none before the first - for EVERY row content including the empty row; a page that holds rows is emitted before its buffer is reset and before a success return; the returned page count equals the number of pages emitted; every page separator written to the result is followed by exactly one cursor whose value is the result length after that separator; every row read is appended to a page exactly once (none skipped, none duplicated) and unmodified (the appended string is the row element itself, not a slice or derivative); (R4) plumbing: cursor 0 is added before the grouping runs, the menu's page count is the grouping's count itself (no arithmetic in between) and the sink value is the grouped string, the cursor (a byte length) slices the sink string itself (not a rune slice), the lookup cuts the page at the first page separator on the complete 'found' edge of the search (offset 0 included), page and in-page separators agree between the grouping and the lookup, and Vm.Render renders the page index that State.Where reports R4 also requires that the engine creates a Sizer only behind OutputSize > 0 (with a Sizer and no limit the sink is paginated against the length of the static text) and that Page.Reset resets its sizer on every path on which it has one (added after seeded changes C02-G and C02-H). R4 further requires that the BrowseError branch of Vm.Render builds nothing but MOVE _catch (a page index past the end is answered by the catch node, never by a lateral move back) and that package render contains no unchecked lossy narrowing (a 16-bit page cursor wraps at 64 kB of sink content); added after seeded changes C02-I and C02-J. R4 also requires that State.Down and State.Up store SizeIdx = 0 on every success path - a node entered by a descent or ascent opens on its first page (added after seeded change C02-L). (R5) = the load-once clause of C05 R1 under its pagination reading: a lateral move re-executes the node's bytecode, so the external-code invoker is reached only on the miss edge of Memory.Get(decoded symbol) (added after seeded change C02-N, which re-ran the loader on every page flip with the browse selector as input). (R6) = C07 R2: the renderer's request-state fields are re-initialised on every path through the resume block, so nothing measured for one render (a memo of browse-entry sizes) is used for the next (added after seeded change C02-M). (R7) = C07 R6: FLAG_DIRTY is raised only by Vm.Run - a failed render is not repeated on a renderer that was not reset (added after seeded change C02-O). (R8) = C08 R9: the code recorded after a run is the run's own result on its success edge - a lateral move is not applied twice after a failed run (added after C02-P).",
 		NotDecided: "the partition relation as such (that the concatenation of all pages equals the row list) for all row lengths and output sizes, and everything that depends on the capacity arithmetic: where page breaks fall, that a page with both lateral entries fits (C01), that a row too long for a fresh page is refused. Movement of the page index by exactly one and its reset on node change are decided under C04 R1-R3. Unsigned wrap-around of idx/pageCount arithmetic is ignored (pageCount==0 is handled on a separate edge). The grouping analysis inlines closures and unexported helpers of package render to depth 3; builders handed anywhere else, deferred calls, and a separator search not written with strings.Index/IndexByte/IndexRune make it undecided.",
 		Assume:     []string{"unsigned wrap-around of idx/pageCount arithmetic does not occur (pageCount==0 is handled on its own edge)", "strings.Builder behaves as documented (Len is the number of bytes written since Reset)"},
 		Run:        runC02,
@@ -27,6 +27,8 @@ func runC02(w *core.World, r *core.Report) {
 	r.Rule("R2", "lateral entries: Put keeps accepted entries; 'next' offered exactly off the last page, 'previous' exactly off the first (flag protocol of the browse method)")
 	r.Rule("R3", "row grouping typestate: separator between rows, every page with rows emitted and counted, one cursor per page separator, every row appended exactly once")
 	r.Rule("R5", "a lateral move re-executes the node's bytecode: LOAD of a symbol that is already loaded calls no external code (C05 R1)")
+	r.Rule("R8", "the code recorded after a run is the run's own result, on its success edge only (C08 R9): a lateral move is not applied twice after a failed run")
+	r.Rule("R7", "FLAG_DIRTY is raised only by Vm.Run (C07 R6): a page is not rendered a second time on a renderer that was not reset")
 	r.Rule("R6", "the renderer carries nothing from one render to the next: request-state fields of Vm/Page/Menu/Sizer are re-initialised on every path through the resume block (C07 R2)")
 	r.Rule("R4", "plumbing: cursor 0 first, page count (unmodified) / sink value from the grouping, byte cursor applied to the string, page cut at the first separator (offset 0 included), separators agree, rendered index = State.Where")
 
@@ -50,6 +52,8 @@ func runC02(w *core.World, r *core.Report) {
 	checkPagePlumbing(w, r, unit, "R4")
 	checkLoadOnce(w, r, "R5", "the external function behind a sink (or any mapped symbol) runs again on every page flip, with the browse selector as its input: content can change between pages, a loader that validates its input fails and the offered next/previous leads to the catch node instead of the neighbouring page: ")
 	checkResumeReset(w, r, "R6")
+	checkDirtySetters(w, r, "R7")
+	checkCodeRecordedFromRun(w, r, "R8")
 }
 
 // ---------------------------------------------------------------------------------------------
